@@ -2,6 +2,7 @@ package spine
 
 import (
 	"testing"
+	"time"
 
 	"github.com/enbility/spine-go/model"
 )
@@ -52,5 +53,42 @@ func TestReplay_C10_RemoveSubscriptionsForEntity_OtherPeerSameEntityNumber(t *te
 	}
 	if n := len(sm.Subscriptions(b.dev)); n != 1 {
 		t.Fatalf("C10 violated: peer B has %d subscriptions (want 1)", n)
+	}
+}
+
+// Replay for post#pending-gone / post#tally-gone / post#others-untouched of (*FeatureLocal).CleanWriteApprovalCaches
+// (C10, C12): removing a connection drops the pending approvals and the approval tallies of that peer, and only those.
+func TestReplay_C10_CleanWriteApprovalCachesDropsPendingAndTally(t *testing.T) {
+	w := rpNewWorld(t, 2)
+	lf := w.localFeature(model.FeatureTypeTypeLoadControl, model.RoleTypeServer).(*FeatureLocal)
+	skiA, skiB := w.peers[0].dev.Ski(), w.peers[1].dev.Ski()
+	mc := model.MsgCounterType(7)
+	lf.muxResponseCB.Lock()
+	lf.pendingWriteApprovals[skiA] = map[model.MsgCounterType]*time.Timer{mc: time.AfterFunc(time.Hour, func() {})}
+	lf.pendingWriteApprovals[skiB] = map[model.MsgCounterType]*time.Timer{mc: time.AfterFunc(time.Hour, func() {})}
+	lf.muxResponseCB.Unlock()
+	lf.muxWriteReceived.Lock()
+	lf.writeApprovalReceived[skiA] = map[model.MsgCounterType]int{mc: 1}
+	lf.writeApprovalReceived[skiB] = map[model.MsgCounterType]int{mc: 1}
+	lf.muxWriteReceived.Unlock()
+
+	lf.CleanWriteApprovalCaches(skiA)
+
+	lf.muxResponseCB.Lock()
+	_, pendA := lf.pendingWriteApprovals[skiA]
+	_, pendB := lf.pendingWriteApprovals[skiB]
+	lf.muxResponseCB.Unlock()
+	lf.muxWriteReceived.Lock()
+	tallyA := lf.writeApprovalReceived[skiA][mc]
+	tallyB := lf.writeApprovalReceived[skiB][mc]
+	lf.muxWriteReceived.Unlock()
+	if pendA {
+		t.Errorf("C10 violated: a pending write approval of the removed peer is still registered")
+	}
+	if tallyA != 0 {
+		t.Errorf("C10 violated: the removed peer's write with counter %d still counts %d approval(s); the next connection of that SKI inherits them", mc, tallyA)
+	}
+	if !pendB || tallyB != 1 {
+		t.Errorf("C10 violated: the other peer lost its pending approval (%v) or tally (%d)", pendB, tallyB)
 	}
 }
